@@ -322,6 +322,14 @@ def run_check(pid, tier, seed):
     t0 = time.time()
     mod = load_module(pid)
     ctx = Ctx(mod, tier, seed)
+    # replay files belong to one run: drop those of earlier runs of this property
+    if os.path.isdir(REPLAY):
+        for fn in os.listdir(REPLAY):
+            if fn.startswith(mod.ID + "-") and fn.endswith(".json"):
+                try:
+                    os.remove(os.path.join(REPLAY, fn))
+                except OSError:
+                    pass
     known = load_known()
     violations = []        # (kind, replay_path, suffix)
     known_seen = {}
